@@ -16,7 +16,7 @@ RULE = ("G1 with-programs (all four function kinds) and G2 await/yield-from chai
         "extractions of the unchanged target compare equal; (c) retention - after one warm-up extraction in the same state, "
         "sys.getrefcount of the managers, the target, its frame and the bound methods on its value stack is unchanged by further "
         "extract-and-drop rounds, no object defined in a stackscope module refers to a manager, and the target is collectable "
-        "(weakref dies) after the run, also after the trickery analysis of the target's frame was made to fail (faults injected at up to 12 points inside it; the library then warns and falls back); (c2) on 3.11+, for a running frame that is inside a C-level call (every other probe goes through a C callable), the raw inspect_frame snapshot reads no more value-stack slots than the depth of the exception-table entry covering f_lasti as parsed by the standard library's dis (0 when none); (d) the worker process survives (a death is reported with the case). Also replays the "
+        "(weakref dies) after the run, (c0) interpreter-wide settings (gc enabled / thresholds / debug flags, switch interval, trace and profile functions, recursion limit, warning filters, thread count, tracebacklimit, excepthook, asyncgen hooks) are the same after the observed run as before it, a third of the runs being made with automatic gc disabled; (c1) also after the trickery analysis of the target's frame was made to fail (faults injected at up to 12 points inside it; the library then warns and falls back); (c2) on 3.11+, for a running frame that is inside a C-level call (every other probe goes through a C callable), the raw inspect_frame snapshot reads no more value-stack slots than the depth of the exception-table entry covering f_lasti as parsed by the standard library's dis (0 when none); (d) the worker process survives (a death is reported with the case). Also replays the "
         "saved F9 crash history. Non-trivial: a program with >= 2 extraction points at which managers were active and a later "
         "resumption; distinct = distinct (IR, points, mode).")
 ASSUMPTIONS = [
@@ -36,7 +36,8 @@ def twin_cases(draw):
     points = [["s", i] for i in sorted(picks)] + [["p", j] for j in sorted(ppicks)]
     return {"prog": prog, "points": points, "repeat": draw(st.sampled_from([1, 1, 2, 3])),
             "trickery": draw(st.sampled_from([True, True, False])),
-            "fail_trickery": draw(st.sampled_from([0, 0, 1, 2, 5, 11]))}
+            "fail_trickery": draw(st.sampled_from([0, 0, 1, 2, 5, 11])),
+            "gc_off": draw(st.sampled_from([False, False, True]))}
 
 
 @st.composite
@@ -81,6 +82,8 @@ def shard(arg):
                    "kind." + c["prog"]["kind"]]
             if c["trickery"] and c.get("fail_trickery"):
                 cls.append("with_injected_trickery_failures")
+            if c.get("gc_off"):
+                cls.append("automatic_gc_disabled")
             return check(ws, interps, dict(c, op="pure.twin"), c, out, cls)
         fail = hyp_search(twin_cases(), twin, seed=arg["seed"], max_examples=arg["n"], shrink=arg["shrink"])
         if fail:
